@@ -76,6 +76,13 @@ def run(ctx):
             case(ver, vurl=vu)
         for uri in (b'https://example.com:443/', b'https://Example.COM/x', b'https://example.com:80/'):
             case(ver, uri=uri)
+        # IPv6 literals, IPv4, trailing dots, explicit / implicit default port on either side, mixed case, zone-less forms
+        hosts6 = [b'[2001:db8::1]', b'[2001:DB8::1]', b'[::1]', b'127.0.0.1', b'example.com.', b'xn--nxasmq6b.example']
+        for h in hosts6:
+            for pu, pv in ((b'', b''), (b'', b':443'), (b':443', b''), (b':443', b':443'), (b'', b':8443'), (b':8443', b':8443')):
+                case(ver, uri=b'https://' + h + pu + b'/', vurl=b'https://' + h + pv + b'/r.validity')
+        case(ver, uri=b'https://[2001:db8::1]/', vurl=b'https://[2001:db8::2]/v')
+        case(ver, uri=b'https://[2001:db8::1]/', vurl=b'https://2001:db8::1/v')
         # Content-Type
         case(ver, rs_ct=False)
         case(ver, rs=[(b'Content-Type', [b''])], rs_ct=False)
